@@ -49,6 +49,7 @@ fn configs() -> Vec<Config> {
     let chains: Vec<(&str, Option<Vec<(Key, Key)>>)> = vec![
         ("no-chain", None),
         ("go->done", Some(vec![(Key::Go, Key::Done)])),
+        ("reset-after-go", Some(vec![(Key::Go, Key::Idle)])),
         ("cycle", Some(vec![(Key::Go, Key::Done), (Key::Done, Key::Go)])),
         ("selfloop+idle->go", Some(vec![(Key::Go, Key::Go), (Key::Idle, Key::Go)])),
         ("via-notl", Some(vec![(Key::NoTl, Key::Idle), (Key::Done, Key::NoTl), (Key::Idle, Key::Done)])),
@@ -103,13 +104,28 @@ fn run_history(sim: &mut Sim, cfg: &Config, steps: &[(Op, usize)], acc: &mut Acc
     for k in [Key::Idle, Key::Go, Key::Done] {
         tls.insert(k, Box::new(key_tl(cfg, k).unwrap().build_cv()));
     }
-    let e = sim.app.world.spawn((init.clone(), Animator::<Cv>::new(), AnimationSelector::<Key, Cv>::new(tls, Key::Idle))).id();
-    if let Some(ch) = &cfg.chain {
-        let mut b = AnimationChainBuilder::<Key>::new();
-        for (a, c) in ch {
-            b = b.add(*a, *c);
+    // construct through the public constructors and through the builders alternately
+    let selector = if index % 2 == 0 {
+        AnimationSelector::<Key, Cv>::new(tls, Key::Idle)
+    } else {
+        drop(tls);
+        let mut b = AnimationSelectorBuilder::<Key, Cv>::new();
+        for k in [Key::Idle, Key::Go, Key::Done] {
+            b = b.add(k, key_tl(cfg, k).unwrap().build_cv());
         }
-        sim.app.world.entity_mut(e).insert(b.build());
+        b.initial_key(Key::Idle).build()
+    };
+    let e = sim.app.world.spawn((init.clone(), Animator::<Cv>::new(), selector)).id();
+    if let Some(ch) = &cfg.chain {
+        if ch.len() == 1 && ch[0].1 == Key::default() && index % 2 == 1 {
+            sim.app.world.entity_mut(e).insert(AnimationChain::<Key>::reset_after(ch[0].0));
+        } else {
+            let mut b = AnimationChainBuilder::<Key>::new();
+            for (a, c) in ch {
+                b = b.add(*a, *c);
+            }
+            sim.app.world.entity_mut(e).insert(b.build());
+        }
     }
     if cfg.two {
         sim.app.world.entity_mut(e).insert((Dv { z: 0.5 }, Animator::<Dv>::with_timeline(cfg.dv.build_dv())));
@@ -298,7 +314,7 @@ pub fn run(run: &mut Run) {
         AnimationSelector (keys Idle/Go/Done with timelines, NoTl without), optionally AnimationChain (none, go->done, a cycle, \
         self-loop + idle->go, via a key without timeline) and optionally a second animated component with its own Animator (short or \
         long timeline); ALL histories of length {depth} over {{no-op, assign Idle/Go/Done/NoTl}} x frame deltas {{0, 1/512 s, 1/8 s, 64 s}} \
-        for each of 30 configurations plus random histories of 30-120 frames; every frame must be explained by the specification \
+        for each of 36 configurations plus random histories of 30-120 frames; every frame must be explained by the specification \
         (selection iff key differs from the key last acted on: animator restarts from 0, component does not jump, then follows the \
         new timeline started from the values at the switch; key without timeline => state None and component untouched; re-assigning \
         the current key => nothing; the key only changes by itself when the governed Animator ended in the previous frame with key \
